@@ -24,17 +24,26 @@ class MachineryError(Exception):
 
 
 def sh(cmd, timeout=None, cwd=None, env=None, check=False, input=None):
+    """Run a command; on timeout the whole process group is killed (grandchildren holding the pipe open
+    would otherwise block the read for ever) and 124 is returned."""
     e = dict(os.environ)
     if env:
         e.update(env)
+    p = subprocess.Popen(cmd, shell=isinstance(cmd, str), cwd=cwd, env=e, stdin=subprocess.PIPE if input is not None else None,
+                         stdout=subprocess.PIPE, stderr=subprocess.STDOUT, start_new_session=True)
     try:
-        p = subprocess.run(cmd, shell=isinstance(cmd, str), cwd=cwd, env=e,
-                           stdout=subprocess.PIPE, stderr=subprocess.STDOUT,
-                           timeout=timeout, input=input)
-    except subprocess.TimeoutExpired as ex:
-        out = ex.stdout.decode("utf-8", "replace") if ex.stdout else ""
-        return 124, out
-    out = p.stdout.decode("utf-8", "replace")
+        out, _ = p.communicate(input=input, timeout=timeout)
+    except subprocess.TimeoutExpired:
+        try:
+            os.killpg(p.pid, 9)
+        except OSError:
+            pass
+        try:
+            out, _ = p.communicate(timeout=10)
+        except subprocess.TimeoutExpired:
+            out = b""
+        return 124, (out or b"").decode("utf-8", "replace")
+    out = out.decode("utf-8", "replace")
     if check and p.returncode != 0:
         raise MachineryError("command failed (%d): %s\n%s" % (p.returncode, cmd, out[-4000:]))
     return p.returncode, out
@@ -70,6 +79,8 @@ def parse_tlc(out, res):
         res.violation = m.group(1)
     elif re.search(r"Error: Deadlock reached", out):
         res.violation = "deadlock"
+    elif re.search(r"Temporal property (\S+) was violated", out):
+        res.violation = re.search(r"Temporal property (\S+) was violated", out).group(1)
     elif re.search(r"Temporal properties were violated", out):
         res.violation = "temporal"
     elif re.search(r"Action property (\S+) is violated", out):
